@@ -310,6 +310,74 @@ func c20BigMemCases(fn func(cs *world.Case, note string)) {
 	}
 }
 
+// c20BigStdCases: standard instructions that take a memory window, over a large memory that was paid for once: the
+// window costs no expansion gas any more, so whatever the instruction (or the recorders behind it) copies, hashes or
+// keeps per byte of the window must be covered by the instruction's own per-byte charge. Each instruction is executed
+// three times (cold and warm targets).
+func c20BigStdCases(fn func(cs *world.Case, note string)) {
+	type win struct{ in, out uint64 }
+	for _, f := range []world.Fork{world.London, world.Shanghai, world.Cancun} {
+		for _, size := range []uint64{1 << 16, 1 << 20} {
+			prog := func(name string, body func(a *asm.P)) {
+				a := asm.New()
+				a.Push(0).Push(size - 32).Op(asm.MSTORE)
+				for i := 0; i < 3; i++ {
+					body(a)
+				}
+				a.Op(asm.STOP)
+				cs := gen.StdCase(f, a.Bytes(), "call", 12_000_000)
+				note := fmt.Sprintf("BIGSTD %s %s memory=%d", f, name, size)
+				cs.Note = note
+				fn(cs, note)
+			}
+			targets := []struct {
+				Name string
+				Addr common.Address
+			}{{"codeless", gen.EOA}, {"absent", gen.Absent}, {"returns32", gen.CRet}, {"stops", gen.CStop}, {"reverts", gen.CRevert}}
+			for _, t := range targets {
+				for _, wn := range []win{{size, 0}, {0, size}, {size, size}} {
+					for _, op := range []byte{asm.CALL, asm.CALLCODE, asm.DELEGATECALL, asm.STATICCALL} {
+						op, t, wn := op, t, wn
+						prog(fmt.Sprintf("%s to %s in=%d out=%d", avm.OpCode(op), t.Name, wn.in, wn.out), func(a *asm.P) {
+							a.Push(wn.out).Push(0).Push(wn.in).Push(0)
+							if op == asm.CALL || op == asm.CALLCODE {
+								a.Push(0)
+							}
+							a.PushAddr(t.Addr).Push(100000).Op(op, asm.POP)
+						})
+					}
+				}
+			}
+			for _, op := range []byte{asm.CREATE, asm.CREATE2} {
+				op := op
+				prog(fmt.Sprintf("%s init=%d", avm.OpCode(op), size), func(a *asm.P) {
+					if op == asm.CREATE2 {
+						a.Push(7)
+					}
+					a.Push(size).Push(0).Push(0).Op(op, asm.POP)
+				})
+			}
+			prog("KECCAK256", func(a *asm.P) { a.Push(size).Push(0).Op(asm.KECCAK256, asm.POP) })
+			prog("LOG0", func(a *asm.P) { a.Push(size).Push(0).Op(asm.LOG0) })
+			prog("LOG2", func(a *asm.P) { a.Push(1).Push(2).Push(size).Push(0).Op(asm.LOG2) })
+			prog("CALLDATACOPY", func(a *asm.P) { a.Push(size).Push(0).Push(0).Op(asm.CALLDATACOPY) })
+			prog("CODECOPY", func(a *asm.P) { a.Push(size).Push(0).Push(0).Op(asm.CODECOPY) })
+			prog("EXTCODECOPY", func(a *asm.P) { a.Push(size).Push(0).Push(0).PushAddr(gen.CRet).Op(asm.EXTCODECOPY) })
+			if f >= world.Cancun {
+				prog("MCOPY", func(a *asm.P) { a.Push(size - 64).Push(0).Push(32).Op(asm.MCOPY) })
+			}
+			// the frame's own result window
+			for _, op := range []byte{asm.RETURN, asm.REVERT} {
+				a := asm.New().Push(0).Push(size - 32).Op(asm.MSTORE).Push(size).Push(0).Op(op)
+				cs := gen.StdCase(f, a.Bytes(), "call", 12_000_000)
+				note := fmt.Sprintf("BIGSTD %s %s memory=%d", f, avm.OpCode(op), size)
+				cs.Note = note
+				fn(cs, note)
+			}
+		}
+	}
+}
+
 // precompile work: CALL into each precompile with inputs that stress its pricing.
 type pcWork struct {
 	Addr  byte
@@ -406,7 +474,7 @@ func init() {
 		ID:        "C20",
 		Level:     "model_checking",
 		Technique: "bounded exhaustive enumeration of instruction/operand/memory/storage boundary products and precompile inputs executed on the real interpreter with per-instruction work monitors (counting StateDB, heap-allocation counter, recorder retention), each instruction judged against fixed multiples of the gas charged for it; state-read sentinel for unbounded loops",
-		Rule:      "families: (STD) instruction matrix of all standard opcodes (operand tuples with <=2 non-default operands from the boundary alphabets, 3 pre-state shapes) on Frontier/Berlin/Cancun - calibrates the bounds; (JM) journal matrix of C03 with the full alphabet; (BIGMEM) key-journal instructions over 1 KiB/64 KiB/1 MiB of paid memory with length words announcing all/half/16 bytes, reference journal over strings of 31..2^20 bytes; (PC) CALL into precompiles 1-9 and 0x64-0x66 with sizes 0..1 MiB, modexp length triples from {0,1,32,33,2^10,2^16,2^20,2^24,2^32} (<=2 deviations) with zero/non-zero exponent head, blake2f rounds up to 2^32-1. Every executed instruction: reads <= 8 + gas/50, allocated <= 64 KiB + 48*gas, retained <= 256 + 8*gas, gas = exact consumption of that instruction. non-trivial = distinct cases in which some instruction performed a state read or allocated more than 1 KiB",
+		Rule:      "families: (STD) instruction matrix of all standard opcodes (operand tuples with <=2 non-default operands from the boundary alphabets, 3 pre-state shapes) on Frontier/Berlin/Cancun - calibrates the bounds; (JM) journal matrix of C03 with the full alphabet; (BIGMEM) key-journal instructions over 1 KiB/64 KiB/1 MiB of paid memory with length words announcing all/half/16 bytes, reference journal over strings of 31..2^20 bytes; (BIGSTD) CALL/CALLCODE/DELEGATECALL/STATICCALL (5 kinds of target, argument and/or return window), CREATE/CREATE2, KECCAK256, LOG, the copy instructions, RETURN/REVERT over a window of 64 KiB / 1 MiB of memory that was paid for before, three times each, on London/Shanghai/Cancun; (PC) CALL into precompiles 1-9 and 0x64-0x66 with sizes 0..1 MiB, modexp length triples from {0,1,32,33,2^10,2^16,2^20,2^24,2^32} (<=2 deviations) with zero/non-zero exponent head, blake2f rounds up to 2^32-1. Every executed instruction: reads <= 8 + gas/50, allocated <= 64 KiB + 48*gas, retained <= 256 + 8*gas, gas = exact consumption of that instruction. non-trivial = distinct cases in which some instruction performed a state read or allocated more than 1 KiB",
 		Assumptions: []string{
 			"allocation is measured with runtime/metrics /gc/heap/allocs:bytes around each instruction in a single-goroutine worker; the tracer callback itself allocates nothing",
 			"hashing work is not measured separately (it is proportional to bytes read/allocated in every instruction concerned)",
@@ -482,6 +550,12 @@ func init() {
 			c20BigMemCases(func(cs *world.Case, note string) {
 				if w.Mine() {
 					run("BIGMEM", cs, 0)
+				}
+			})
+			// BIGSTD
+			c20BigStdCases(func(cs *world.Case, note string) {
+				if w.Mine() && !w.Expired() {
+					run("BIGSTD", cs, 0)
 				}
 			})
 			// STD
